@@ -515,11 +515,20 @@ class StdioClient:
                         else:
                             logger.error(f"Task error during shutdown: {e}")
 
-            if self.process and self.process.returncode is None:
-                await self._terminate_process()
-
         except Exception as e:
             logger.debug(f"Error during stdio client shutdown: {e}")
+        finally:
+            # The child must not outlive the context.  This also has to run when
+            # the surrounding scope is cancelled (outer cancellation, a timeout
+            # around the context): then every unshielded await above and below
+            # raises at once, so the bounded (two grace periods) termination is
+            # shielded from it.
+            try:
+                with anyio.CancelScope(shield=True):
+                    if self.process and self.process.returncode is None:
+                        await self._terminate_process()
+            except Exception as e:
+                logger.debug(f"Error during stdio client shutdown: {e}")
 
         return False
 
